@@ -415,11 +415,11 @@ Section D.
       deps_ok O d = true /\
       (forall f rows, d_tab O d f = Some rows -> table_wf O (fk_of f) rows = true) /\
       (forall k l, d_feat O d k = Some l -> feat_wf O k l = true) /\
-      (forall l, d_matches O d = Some l -> matches_wf l = true) /\
+      (forall l, d_matches O d = Some l -> matches_wf O true l = true) /\
       (forall p, d_p3d O d = Some p -> p3d_wf O p = true) /\
       refs_ok O d = true.
     Proof.
-      unfold wf in WF. rewrite !andb_true_iff in WF. destruct WF as [[[[[D T] Fe] M] P] R].
+      unfold wf, wf_gen in WF. rewrite !andb_true_iff in WF. destruct WF as [[[[[D T] Fe] M] P] R].
       split; [exact D|]. split; [|split; [|split; [|split; [|exact R]]]].
       - intros f rows E. rewrite forallb_forall in T. specialize (T f (all_tfiles_complete f)). rewrite E in T. exact T.
       - intros k l E. rewrite forallb_forall in Fe. specialize (Fe k (all_featkinds_complete k)). rewrite E in Fe. exact Fe.
@@ -622,12 +622,30 @@ Section D.
       - intros s Is. rewrite forallb_forall in Fa. specialize (Fa s Is). rewrite !andb_true_iff in Fa. tauto.
     Qed.
 
+    (* on match files whose image paths are normalised the code as it is keeps every pair in its own spelling *)
+    Lemma match_pairs_normalised (t : tree) ims kt :
+      (forall e, In e (t_matchfiles t) -> pair_normalised O (snd e) = true) ->
+      match_pairs O t ims kt = match_pairs_ideal t ims kt.
+    Proof.
+      unfold match_pairs, match_pairs_ideal. induction (t_matchfiles t) as [|e l IH]; intro H; [reflexivity|].
+      assert (He : pair_normalised O (snd e) = true) by (apply H; left; reflexivity).
+      unfold pair_normalised in He. rewrite andb_true_iff, !txt_eqb_eq in He. destruct He as [H1 H2].
+      cbn [List.filter]. rewrite H1, H2.
+      destruct (txt_eqb (fst e) kt && tmem (fst (snd e)) ims && tmem (snd (snd e)) ims).
+      - cbn [map]. rewrite H1, H2, IH by (intros x I; apply H; right; exact I). destruct (snd e); reflexivity.
+      - apply IH. intros x I. apply H. right. exact I.
+    Qed.
+
     Lemma step_matches :
-      exists r, load_matches O (save O d) cams' = Ok r /\ matches_equiv r (d_matches O d).
+      exists r, load_matches O false (save O d) cams' = Ok r /\ matches_equiv r (d_matches O d).
     Proof.
       unfold load_matches. cbn [save t_matchdirs]. destruct (d_matches O d) as [l|] eqn:E; [|exists None; split; [reflexivity|exact I]].
-      destruct wf_parts as [D [_ [_ [Mw _]]]]. specialize (Mw l E). unfold matches_wf in Mw. rewrite andb_true_iff in Mw.
-      destruct Mw as [NE ND]. destruct l as [|e0 l0]; [discriminate|].
+      destruct wf_parts as [D [_ [_ [Mw _]]]]. specialize (Mw l E). unfold matches_wf in Mw. rewrite !andb_true_iff in Mw.
+      destruct Mw as [[NE ND] NORM]. cbn [negb orb] in NORM. destruct l as [|e0 l0]; [discriminate|].
+      assert (MPN : forall ims kt, match_pairs O (save O d) ims kt = match_pairs_ideal (save O d) ims kt).
+      { intros ims kt. apply match_pairs_normalised. intros e Ie. cbn [save t_matchfiles] in Ie. rewrite E in Ie.
+        apply in_flat_map in Ie. destruct Ie as [e' [Ie' Ip]]. apply in_map_iff in Ip. destruct Ip as [q [<- Iq]]. cbn [snd].
+        rewrite forallb_forall in NORM. specialize (NORM e' Ie'). rewrite forallb_forall in NORM. apply NORM, Iq. }
       assert (CAM : exists c, cams' = Some c).
       { unfold deps_ok in D. rewrite !andb_true_iff in D. destruct D as [[_ D] _]. rewrite orb_true_iff in D.
         destruct D as [D|D].
@@ -637,9 +655,9 @@ Section D.
       change (fst e0 :: map fst l0) with (map fst (e0 :: l0)). rewrite map_map.
       apply (nodup_txt (map fst (e0 :: l0))) in ND.
       assert (G : forall l', (forall e, In e l' -> In e (e0 :: l0)) ->
-                  Forall2 pairs_equiv (map (fun e => (fst e, match_pairs (save O d) (cam_images O cams') (fst e))) l') l').
+                  Forall2 pairs_equiv (map (fun e => (fst e, match_pairs O (save O d) (cam_images O cams') (fst e))) l') l').
       { induction l' as [|e l' IH]; intro Sub; cbn [map]; constructor.
-        - split; [reflexivity|]. intro p. cbn [fst snd]. unfold match_pairs. rewrite in_map_iff. split.
+        - split; [reflexivity|]. intro p. cbn [fst snd]. rewrite MPN. unfold match_pairs_ideal. rewrite in_map_iff. split.
           + intros [[kt q] [<- I']]. apply filter_In in I'. destruct I' as [I' T]. cbn [fst snd] in T |- *.
             rewrite !andb_true_iff, txt_eqb_eq in T. destruct T as [[-> _] _].
             cbn [save t_matchfiles] in I'. rewrite E in I'. apply in_flat_map in I'. destruct I' as [e' [Ie' Ip]].
